@@ -69,6 +69,6 @@ def _is_uuid(value: str) -> bool:
 def _is_date_time(value: str) -> bool:
     try:
         parse_datetime(value)
-    except (ParserError, TypeError):
+    except (ParserError, TypeError, OverflowError):
         return False
     return True
